@@ -272,6 +272,9 @@ func (maybeSelf someDef[T]) ToFloat32() (float32, error) {
 		return (ref).(float32), nil
 	case float64:
 		val, err := maybeSelf.ToFloat64()
+		if math.Abs(val) > math.MaxFloat32 && !math.IsInf(val, 0) {
+			return 0, ErrConversionSizeOverflow
+		}
 		return float32(val), err
 	}
 }
